@@ -13,6 +13,9 @@ Only then is the change copied to /verif/seeded/<id>/ (patch.diff, demo, meta.js
 import json, os, re, shutil, subprocess, sys, tempfile
 
 FLAGS = os.environ.get("MUT_TEST_FLAGS", "")
+# MUT_BASE=<refactoring diff>: the change was made on top of that behaviour-preserving commit; "clean tree"
+# below is then /repo HEAD plus the refactoring, and the stored patch is the combined diff against /repo HEAD
+BASE = os.environ.get("MUT_BASE", "")
 ENV = dict(os.environ, GOFLAGS="-mod=readonly", GOPROXY="off", GOSUMDB="off", GOTOOLCHAIN="local")
 
 
@@ -37,6 +40,10 @@ def main():
     try:
         rc, out = sh("git -C /repo worktree add --detach -q %s HEAD" % wt, "/")
         assert rc == 0, out
+        if BASE:
+            rc, out = sh("git apply %s" % os.path.abspath(BASE), wt)
+            assert rc == 0, "base refactoring does not apply: " + out
+            ran.append("base: /repo HEAD + %s" % os.path.basename(BASE))
         # clean tree: suite + demo passes
         rc, base = sh("go test -vet=off -count=1 ./... 2>&1", wt)
         base_fail = failing(base)
@@ -72,6 +79,7 @@ def main():
         dst = os.path.join("/verif/seeded", sid)
         os.makedirs(dst, exist_ok=True)
         # store the patch as it applies to the current /repo HEAD
+        sh("git add -A -N .", wt)  # files the refactoring created count as changes too
         rc, diff = sh("git diff -- . ':(exclude)%s'" % demo_path, wt)
         open(os.path.join(dst, "patch.diff"), "w").write(diff)
         shutil.copy(demo, os.path.join(dst, "demo_test.go"))
@@ -85,6 +93,7 @@ def main():
             "demo_path": demo_path,
             "demo_cmd": "go test -vet=off -count=1 %s %s" % (FLAGS, pkg),
             "repo_head_when_confirmed": head,
+            "on_top_of_refactoring": os.path.basename(BASE) if BASE else None,
             "confirmed_by_me": ran,
             "author_ran": meta.get("ran"),
         }
